@@ -19,7 +19,7 @@ register_encoder = encoder_registry.register
 class JSONEncoder(json.JSONEncoder):
     def default(self, o):
         encoder = encoder_registry.resolve(type(o))
-        if encoder:
+        if encoder is not None:
             return encoder(o)
         return super().default(o)
 
